@@ -1186,6 +1186,14 @@ class Sum(Expression):
                 # several children share a name (copies of a variable in different worlds):
                 # summing over that name does not marginalize any one of them out
                 return self
+            if any(
+                intervention.get_base() in ranges
+                for child in expression.children
+                if isinstance(child, CounterfactualVariable)
+                for intervention in child.interventions
+            ):
+                # a range that also occurs below a child as an intervention value stays bound by the sum
+                return self
             if ranges == set(children):
                 return One()
             elif ranges > set(children):
